@@ -546,20 +546,8 @@ impl Interpreter {
             Assign(assignment) => {
                 // execute the expression
                 let result = self.expr(&assignment.value)?;
-                match &result {
-                    Value::List(list) => {
-                        match self
-                            .venv
-                            .lookup_var(&assignment.target.clone(), self.get_file_path())
-                        {
-                            Ok(Value::List(target_list)) => {
-                                target_list.swap(list);
-                            }
-                            _ => self.venv.define(assignment.target.clone(), result.clone()),
-                        }
-                    }
-                    _ => self.venv.define(assignment.target.clone(), result.clone()),
-                }
+                // assignment rebinds the name; it never touches the contents of a list
+                self.venv.define(assignment.target.clone(), result.clone());
 
                 Ok(result)
             }
